@@ -122,6 +122,7 @@ package slug
 //@   replay packRootLink@C16:
 //@   at-call path/filepath.Walk#1 C16.pack.walk-root: a0 == Abs(ite(modeSymlinkBit(fileMode(info)), ite(isAbs(readlinkOf(src)), readlinkOf(src), Join(Dir(src), readlinkOf(src))), src))
 //@   sets $packCalls = old($packCalls) + 1
+//@   assume-at-call go-slug.Packer.packWalkFn not-fs-root: a2 != "/"
 //@   ensures C20.pack.meta: err == nil ==> metaMatchesArchive(meta)
 //@   ensures C12.pack.close-errors: err == nil ==> isNil($tarCloseErr) && isNil($gzipCloseErr)
 //@   ensures C12.pack.noresult: err != nil ==> meta == nil
@@ -144,8 +145,15 @@ package slug
 //@   replay packIgnore@C03:
 //@   replay packUnpack@C05:
 //@   ghost $rejected Bool = false
-//@   requires pre.walk: segUnder(Clean(path), Clean(src))
+//@   requires pre.walk: segUnder(Clean(path), Clean(src)) && Clean(path) == path
 //@   closure-invariant C05.walk.src: src == root || p.dereference
+// the directory being walked and its position in the archive are cleaned paths, and the position lies under the root:
+// with that, every entry name is relative to the root and does not climb out of it
+// (neither the packed directory nor a dereferenced directory is the file-system root "/": assumed where the closure is
+// made, see the two assume-at-call clauses; strings.Replace on the prefix "/" would glue names together)
+//@   closure-invariant C05,C02.walk.shape: Clean(src) == src && Clean(dst) == dst && Clean(root) == root && isAbs(src) && isAbs(root) && segUnder(dst, root) && src != "/" && root != "/"
+//@   at-call (*archive/tar.Writer).WriteHeader C05,C02.header-name-inside: !climbs(a1.Name) && !isAbs(a1.Name) && a1.Name != ""
+//@   assume-at-call go-slug.Packer.packWalkFn not-fs-root: a2 != "/"
 //@   at-call (*archive/tar.Writer).WriteHeader C05.link-valid-at-archive-position: a1.Typeflag == tar.TypeSymlink && len(p.allowSymlinkTargets) == 0 ==>
 //@       segUnder(ite(isAbs(a1.Linkname), Clean(a1.Linkname),
 //@                    Join(Dir(ite(isAbs(Replace(path, src, dst, 1)), Replace(path, src, dst, 1), Join(Abs(root), Replace(path, src, dst, 1)))), a1.Linkname)), Abs(root))
@@ -168,6 +176,7 @@ package slug
 //@ func (*Packer).resolveExternalLink -> (r, err)
 //@   pure
 //@   sweep
+//@   ensures C05.resolve.target-clean: err == nil ==> Clean(r.absTarget) == r.absTarget && (isAbs(root) ==> isAbs(r.absTarget))
 //@   requires pre.p: p != nil
 //@   ensures C19.result: err == nil ==> r != nil
 //@   ensures C03,C05.notskip: err != filepath.SkipDir
@@ -175,6 +184,7 @@ package slug
 //@ func (*Packer).followExternalLink -> (r, err)
 //@   pure
 //@   sweep
+//@   ensures C05.follow.target-clean: err == nil ==> Clean(r.absTarget) == r.absTarget && (isAbs(root) ==> isAbs(r.absTarget))
 //@   replay packCycle:
 //@   requires pre.p: p != nil
 //@   decreases C19.terminates: hops
